@@ -103,6 +103,9 @@ func genDispatch(c *ctx) string {
 	b.WriteString("def dirArgWrapperAccepted : Bool := " + dirArgTypeTest(c) + "\n")
 	b.WriteString("def descRaw : Bool := " + descForm(c) + "\n")
 	b.WriteString("def assureOnce : Bool := " + assureSchemaForm(c) + "\n")
+	dlv, tld := dirLoopAndTypeLookupForms(c)
+	b.WriteString("def dirLoopByVisited : Bool := " + dlv + "\n")
+	b.WriteString("def typeLookupFindsDirectives : Bool := " + tld + "\n")
 	dru, drt, esn := dirUseForms(c)
 	b.WriteString("def dirRequiredUnchecked : Bool := " + dru + "\n")
 	b.WriteString("def dirRefTypeFirst : Bool := " + drt + "\n")
@@ -837,6 +840,41 @@ func dirUseForms(c *ctx) (dirRequiredUnchecked, dirRefTypeFirst, extendSchemaNee
 			extendSchemaNeedsSchema = "true"
 		default:
 			extendSchemaNeedsSchema = unknown("addExtends schema arm", c.pos(fd))
+		}
+	}
+	return
+}
+
+// dirLoopAndTypeLookupForms: (D83) (*Directive).hasDirLoop keeps every directive it has *seen* in `hits`, so a
+// directive reached twice by different ways (the same directive on two arguments, a diamond) is reported as a
+// loop — or only the directives on the current path (mark on the way in, unmark on the way out).  (D84) the
+// `__type(name:)` meta-field looks the name up with GetType, which falls back on the directive table, or in the
+// type table only.
+func dirLoopAndTypeLookupForms(c *ctx) (dirLoopByVisited, typeLookupFindsDirectives string) {
+	dirLoopByVisited, typeLookupFindsDirectives = unknown("hasDirLoop", "directive.go"), unknown("__type lookup", "resolve.go")
+	norm := func(n ast.Node) string {
+		t := regexp.MustCompile(`(?m)//.*$`).ReplaceAllString(c.src(n), "")
+		return regexp.MustCompile(`\s+`).ReplaceAllString(t, " ")
+	}
+	if fd := c.funcs["Directive.hasDirLoop"]; fd != nil {
+		switch norm(fd.Body) {
+		case `{ for _, a := range t.args.list { for _, du := range a.Directives() { name := du.Directive.Name() if hits[name] { return []string{t.Name() + "." + a.Name(), name} } hits[name] = true if d2, _ := du.Directive.(*Directive); d2 != nil { if path := d2.hasDirLoop(hits); 0 < len(path) { return append([]string{t.Name() + "." + a.Name()}, path...) } } } } return nil }`:
+			dirLoopByVisited = "true"
+		case `{ for _, a := range t.args.list { for _, du := range a.Directives() { name := du.Directive.Name() if hits[name] { return []string{t.Name() + "." + a.Name(), name} } if d2, _ := du.Directive.(*Directive); d2 != nil { hits[name] = true path := d2.hasDirLoop(hits) delete(hits, name) if 0 < len(path) { return append([]string{t.Name() + "." + a.Name()}, path...) } } } } return nil }`:
+			dirLoopByVisited = "false"
+		default:
+			dirLoopByVisited = unknown("hasDirLoop body", c.pos(fd))
+		}
+	}
+	if fd := c.funcs["Root.resolveField"]; fd != nil {
+		src := norm(fd.Body)
+		switch {
+		case strings.Contains(src, "name, _ := nv.(string) t = root.GetType(name) if t != nil {"):
+			typeLookupFindsDirectives = "true"
+		case strings.Contains(src, "name, _ := nv.(string) t = root.types.get(name) if t != nil {"):
+			typeLookupFindsDirectives = "false"
+		default:
+			typeLookupFindsDirectives = unknown("__type lookup", c.pos(fd))
 		}
 	}
 	return
